@@ -11,10 +11,15 @@ from . import common, progs
 
 def _run_one(args):
     """Worker: run one program on the implementation with probes. Returns (out, probe_failures, exc)."""
-    prog, probe_names, clear_cache = args
+    prog, probe_names, clear_cache = args[:3]
     from . import probes as P
     probe_objs = [P.REGISTRY[n]() for n in probe_names]
-    r = progs.ImplRun(clear_cache=clear_cache)
+    run_cls = progs.ImplRun
+    if len(args) > 3 and args[3]:
+        import importlib
+        mod, name = args[3].rsplit('.', 1)
+        run_cls = getattr(importlib.import_module(mod), name)
+    r = run_cls(clear_cache=clear_cache)
     out = []
     fails = []
     import contextlib, io, warnings
@@ -48,9 +53,10 @@ def _run_one(args):
     return out, fails
 
 
-def run_impl_many(programs, probe_names, clear_cache=False, jobs=None):
+def run_impl_many(programs, probe_names, clear_cache=False, jobs=None, run_cls=None):
+    """run_cls: dotted name of an ImplRun subclass (string, so that it pickles)."""
     jobs = jobs or min(16, os.cpu_count() or 1)
-    args = [(p, probe_names, clear_cache) for p in programs]
+    args = [(p, probe_names, clear_cache, run_cls) for p in programs]
     if jobs <= 1 or len(programs) < 32:
         return [_run_one(a) for a in args]
     with mp.get_context('fork').Pool(jobs) as pool:
